@@ -1,12 +1,12 @@
 package chain
 
 import (
-	"os"
 	"bytes"
 	"encoding/hex"
 	"encoding/json"
 	"fmt"
 	"math/big"
+	"os"
 	"sort"
 
 	"github.com/ethereum/go-ethereum/common"
@@ -898,7 +898,6 @@ func (w *World) checkEvmShouldFail(h int64, idx int, p *TxPlan, r *abci.Response
 }
 
 func sortInt64(a []int64) { sort.Slice(a, func(i, j int) bool { return a[i] < a[j] }) }
-
 
 // checkVoteShouldCount: the recorded validators vote, each counted once, the latest replacing earlier
 // ones: a vote by a recorded voter, inside the window, for an existing option, that satisfies the
